@@ -54,7 +54,7 @@ impl Src {
     pub open spec fn ok(&self, i: int) -> bool { 0 <= i <= self.slen() && self.is_boundary(i) && self.slen() <= isize::MAX }
 
     #[verifier::external_body]
-    pub proof fn axiom_ends(&self) ensures self.is_boundary(0), self.is_boundary(self.slen() as int), self.slen() <= usize::MAX { }
+    pub proof fn axiom_ends(&self) ensures self.is_boundary(0), self.is_boundary(self.slen() as int), self.slen() <= isize::MAX { }
 
     #[verifier::external_body]
     pub fn len(&self) -> (r: usize) ensures r == self.slen(), self.is_boundary(0), self.is_boundary(r as int) { unimplemented!() }
